@@ -185,6 +185,10 @@ def subst(t, env):
 
 def proj_field(t, name):
     k = t[0]
+    if k == 'bin' and t[1].endswith('WithOverflow'):
+        if name == '0':
+            return ('bin', t[1][:-len('WithOverflow')], t[2], t[3])
+        return ('overflowed', t)
     if k == 'any':
         return mk_any([proj_field(x, name) for x in t[1]])
     if k == 'agg':
@@ -350,6 +354,10 @@ class Resolver:
             return ('static', strip_generics(op['static_def']))
         if 'v' in op:
             return ('const', op['v'], op['ty'])
+        if 'promoted' in op:
+            pb = self.fx.by_path.get(op['promoted'])
+            if pb is not None:
+                return get_resolver(pb).ret()
         if 'const_def' in op:
             cb = self.fx.by_path.get(op['const_def'])
             if cb is not None:
